@@ -160,6 +160,11 @@ func (opp *operationPack) Write(def Definition, repo repository.Repo, parentComm
 		return "", err
 	}
 
+	if signingKey == nil && len(opp.Author.ValidKeysAtTime(fmt.Sprintf(editClockPattern, def.Namespace), opp.EditTime)) > 0 {
+		// every reader will require a signature at that time: an unsigned commit would be unreadable
+		return "", fmt.Errorf("the author has signing keys but no private key is available to sign the commit")
+	}
+
 	if signingKey != nil {
 		commitHash, err = repo.StoreSignedCommit(treeHash, signingKey.PGPEntity(), parentCommit...)
 	} else {
